@@ -150,7 +150,7 @@ def run_case(ctx, case, exp, variant, kind):
     dup = False
     arr = {f: df[f].to_numpy(dtype=float) for f in FIELDS}
     for k in range(df.shape[0]):
-        pid = arr["subtomo_id"][k]
+        pid = float(arr["subtomo_id"][k])
         if pid in got:
             dup = True
         got[pid] = {f: float(arr[f][k]) for f in FIELDS}
@@ -167,11 +167,11 @@ def run_case(ctx, case, exp, variant, kind):
             rest = [p for p in wrongly_kept if status.get(p) != "lower"]
             if known:
                 # particles whose (box around the) complete position leaves the volume through lower faces only
-                ctx.fail("C09_ExactInsideSet", "kept although outside through a lower face only: ids %s" % known[:10], rec,
+                ctx.fail("C09_ExactInsideSet", "kept although outside through a lower face only: ids %s" % [int(p) for p in known[:10]], rec,
                          dict(sig, **{"class": "kept_lower_face_only"}))
             wrongly_kept = rest
         if wrongly_kept or wrongly_removed:
-            ctx.fail("C09_ExactInsideSet", "wrongly kept ids %s, wrongly removed ids %s" % (wrongly_kept[:10], wrongly_removed[:10]),
+            ctx.fail("C09_ExactInsideSet", "wrongly kept ids %s, wrongly removed ids %s" % ([int(p) for p in wrongly_kept[:10]], [int(p) for p in wrongly_removed[:10]]),
                      rec, dict(sig, **{"class": cls}))
     for pid in sorted(set(got) & set(want)):
         bad = [f for f in FIELDS if not got[pid][f] == want[pid][f]]
